@@ -68,7 +68,10 @@ func (e *env) universe(l1Only bool) []treq {
 	}
 	addrs := []string{"a", "b", "c", "d", "e", "f"} // 0xf is never deployed
 	slots := []string{"5", "6", "7", "8"}           // 0x8 is never written
-	classes := []string{"384", "385", "386", "387", "388"}
+	classes := []string{"384", "385", "386", "387", "388"} // Cairo-0 hashes 900..904
+	for id := uint64(1); id <= 3; id++ {
+		classes = append(classes, hx0(sierraHash(id).String()))
+	}
 	for _, id := range e.idents() {
 		id := id
 		bid := &id.bid
@@ -86,6 +89,7 @@ func (e *env) universe(l1Only bool) []treq {
 		for _, a := range addrs {
 			for _, k := range slots {
 				add(Req{M: "storageAt", ID: bid, IDRef: id.ref, Addr: a, Key: k}, id.kind)
+				add(Req{M: "storageAtLU", ID: bid, IDRef: id.ref, Addr: a, Key: k}, id.kind)
 			}
 			for _, m := range []string{"nonce", "classHashAt", "classAt"} {
 				add(Req{M: m, ID: bid, IDRef: id.ref, Addr: a}, id.kind)
